@@ -455,6 +455,13 @@ _t(
     "one array partially reduced along different axes by two consumers (no full reduction downstream)",
 )
 _t(
+    "TN3",
+    [FSpec("pre", ["c"], ["d"], none_when_zero=True), FSpec("f", ["a", "d"], ["y"], "a[i] -> y[i]"), FSpec("tot", ["y", "d"], ["r"])],
+    lambda n, v: {"a": _lst(v, 0, n[0]), "c": v[6]},
+    1,
+    "a function without MapSpec whose result is None for c == 0 (None is a stored value like any other), consumed by a map and a reduction",
+)
+_t(
     "TG",
     [
         FSpec("f", ["a", "c"], ["y"], "a[i] -> y[i]"),
